@@ -23,7 +23,8 @@ DISTS = [10.0, 25.0, 100.0, 300.0, 600.0, 1000.0, 1800.0, 3000.0]
 STORED = [0.0, 10 / 60, -0.5, 3.0, 20.0]
 WINDS = ['none', 'cross15', 'tail', 'head', 'seg3']
 LOADS = {'base': {}, 'g1': {'dm': 'G1', 'bc': 0.365, 'mv': 2600.0}, 'pellet': {'dm': 'G1', 'bc': 0.03, 'mv': 900.0},
-         'hot': {'atmo': 'hot'}, 'alt5k_multi': {'atmo': 'icao5k', 'dm': 'multi', 'bc': 0.25}}
+         'hot': {'atmo': 'hot'}, 'alt5k_multi': {'atmo': 'icao5k', 'dm': 'multi', 'bc': 0.25},
+         'alt12k': {'atmo': [12000.0, 19.03, 16.2, 0]}}      # a station at 12000 ft: aim points far below the muzzle are still far above every limit
 ACC = 0.000005
 MAX_STEP = 0.5
 
@@ -105,7 +106,41 @@ def zero(cell):
             'extra': {'max_miss_over_bound': ratio} if ratio is not None and not out else {}}
 
 
-PARTS = {'zero': zero, 'fail': zero}
+def sequence(cell):
+    """one calculator zeroes a whole series of distances (a range day): every one of them is a zeroing of its own - same oracle as the zero part,
+    cell by cell, with the calculator that has done all the earlier ones"""
+    import py_ballisticcalc as pb
+    U = pb.Unit
+    look, dists, load = cell
+    calc = make_calc(None)
+    out = []
+    n = 0
+    for rnd in range(1):
+        for d_yd in dists:
+            shot = make_shot(dict(LOADS[load], look=look, zero=0.0, wind='none', sh=2.0))
+            x = d_yd * 3.0 * math.cos(math.radians(look))
+            n += 1
+            try:
+                calc.set_weapon_zero(shot, U.Yard(d_yd))
+                p = [r for r in calc.fire(shot, U.Foot(x), U.Foot(x)).trajectory if r.flag & 8][-1]
+                td = abs(p.target_drop >> U.Foot)
+                bound = ACC + MAX_STEP * abs(math.tan((p.angle >> U.Radian) - math.radians(look))) + 1e-9
+                if td > bound:
+                    out.append({'msg': f'look {look} deg, zero no. {n} of one calculator at {d_yd} yd: {td * 12:.4f} in from the sight line (allowed {bound * 12:.4f} in)', 'key': None})
+            except Exception as e:  # noqa
+                fresh_ok = True
+                try:
+                    make_calc(None).set_weapon_zero(make_shot(dict(LOADS[load], look=look, zero=0.0, wind='none', sh=2.0)), U.Yard(d_yd))
+                except Exception:  # noqa
+                    fresh_ok = False
+                if fresh_ok:
+                    out.append({'msg': f'look {look} deg: zero no. {n} of one calculator at {d_yd} yd failed with {type(e).__name__} ({str(e)[:60]}) although a fresh calculator zeroes it', 'key': None})
+            if out:
+                return {'v': out, 'n': n, 'nt': cell}
+    return {'v': out, 'n': n, 'nt': cell}
+
+
+PARTS = {'zero': zero, 'fail': zero, 'sequence': sequence}
 
 
 def plan(tier):
@@ -146,4 +181,8 @@ def plan(tier):
             fails.append([look, d, st, 'cross15', 'base', 2.0, {'cMaxIterations': 2, 'cZeroFindingAccuracy': 1e-9}])
         fails.append([look, 9000.0, st, 'none', 'base', 2.0])
         fails.append([look, 400.0, st, 'none', 'pellet', 2.0])
-    return [('zero', cells), ('fail', fails)]
+    # far below a high station (the aim point is 1500-2700 ft under the muzzle, the ground limits are 10000 ft further down)
+    for look, d in ((-25.0, 2000.0), (-40.0, 1500.0), (-30.0, 1000.0), (30.0, 1000.0)):
+        cells.append([look, d, 0.0, 'none', 'alt12k', 2.0])
+    seqs = [[look, [100.0, 200.0, 300.0, 400.0, 500.0, 600.0, 700.0, 800.0, 100.0, 300.0, 500.0, 150.0], 'base'] for look in (0.0, 10.0, -30.0)]
+    return [('zero', cells), ('fail', fails), ('sequence', seqs)]
